@@ -34,6 +34,15 @@ MONTHS_EN = [calendar.month_name[i].lower() for i in range(1, 13)]
 ABBR_EN = [calendar.month_abbr[i].lower() for i in range(1, 13)]
 
 
+MONTH_NAMES = {
+    'es-es': ['enero', 'febrero', 'marzo', 'abril', 'mayo', 'junio', 'julio', 'agosto', 'septiembre', 'octubre', 'noviembre', 'diciembre'],
+    'fr-fr': ['janvier', 'février', 'mars', 'avril', 'mai', 'juin', 'juillet', 'août', 'septembre', 'octobre', 'novembre', 'décembre'],
+    'pt-br': ['janeiro', 'fevereiro', 'março', 'abril', 'maio', 'junho', 'julho', 'agosto', 'setembro', 'outubro', 'novembro', 'dezembro'],
+    'de-de': ['januar', 'februar', 'märz', 'april', 'mai', 'juni', 'juli', 'august', 'september', 'oktober', 'november', 'dezember'],
+    'it-it': ['gennaio', 'febbraio', 'marzo', 'aprile', 'maggio', 'giugno', 'luglio', 'agosto', 'settembre', 'ottobre', 'novembre', 'dicembre'],
+}
+
+
 def ordinal(n):
     return str(n) + ('th' if 11 <= n % 100 <= 13 else {1: 'st', 2: 'nd', 3: 'rd'}.get(n % 10, 'th'))
 
@@ -46,6 +55,11 @@ def date_layouts(culture):
         'slash': z3.Concat(a, lit('/'), b, lit('/'), YEAR),
         'dash': z3.Concat(a, lit('-'), b, lit('-'), YEAR),
     }
+    names = MONTH_NAMES.get(culture)
+    if names:
+        # month-name layout of the culture: day, month name, year in its usual connective form
+        fmt = {'es-es': ' de %s de ', 'pt-br': ' de %s de ', 'fr-fr': ' %s ', 'it-it': ' %s ', 'de-de': '. %s '}[culture]
+        out['d-month-y'] = z3.Concat(D1, alt([fmt % m for m in names]), YEAR)
     if culture == 'en-us':
         mon = alt(MONTHS_EN + ABBR_EN)
         out['month-d-y'] = z3.Concat(mon, lit(' '), D1, lit(', '), YEAR)
@@ -63,6 +77,9 @@ def parse_date_layout(name, s, culture):
     if name in ('slash', 'dash'):
         a, b, y = s.replace('/', '-').split('-')
         return (int(y), int(a), int(b)) if mdy else (int(y), int(b), int(a))
+    if culture in MONTH_NAMES and name == 'd-month-y':
+        w = s.replace('.', ' ').replace(' de ', ' ').split()
+        return int(w[2]), MONTH_NAMES[culture].index(w[1]) + 1, int(w[0])
     w = s.replace(',', ' ').replace(' of ', ' ').split()
     num = lambda t: int(''.join(c for c in t if c.isdigit()))  # noqa
     mon = lambda t: (MONTHS_EN.index(t) + 1) if t in MONTHS_EN else (ABBR_EN.index(t) + 1)  # noqa
